@@ -21,6 +21,7 @@ EXPLANATION = EXPLANATION + " Added while testing against seeded changes: " + EX
 EXPLANATION = EXPLANATION + " Rounds 12-13: R5 also requires that a dispatch error does not end the wind-down's loop over the messages still buffered in the source."
 EXPLANATION = EXPLANATION + " Rounds 14-15: (R9) the reader's Some(frame) / None decision derives from the inbound queue's receive call alone (no constant None on another condition); (S9) the Finish / Push constructors are exact."
 EXPLANATION = EXPLANATION + ' Rounds 16-17: (R10) = C13.R3, end-of-stream through the bridge (only where the bridge is compiled).'
+EXPLANATION = EXPLANATION + ' Round 18: (R11) = C06.R3, a stream dropped without shutdown is always signalled with a Reset.'
 ASSUMPTIONS = ["tokio mpsc: a receiver sees None only after all senders are dropped and the queue is drained",
                "frames travel in one FIFO (S1, checked under C02)"]
 NOT_DECIDED = "the cross-task timing clause 'only after every byte has been returned' (follows from FIFO + R2, trusted)"
